@@ -220,6 +220,13 @@ theorem c10_gen_reservation :
     sites.all (fun s => modelReserve s.encoder == some (s.base, s.plusLen)) = true :=
   ⟨gen_sites_safe, gen_reserve_model⟩
 
+/-- Every `aws_cbor_encoder_write_*` other than `write_float` reaches its reserve + encode call
+unconditionally (no `return`, no branch other than the fatal assertions and `write_bool`'s choice of the
+control value): a call cannot silently write nothing, whatever its argument (e.g. a `{NULL, 0}` cursor). -/
+theorem c10_gen_writers_unconditional :
+    writersWithReturn = ["aws_cbor_encoder_write_float"] ∧ writersWithBranch = [] :=
+  gen_writers_unconditional
+
 /-- the offsets / bytes encoding.c passes for each item kind and the control values of cbor.c are the
 model's -/
 theorem c10_gen_offsets :
